@@ -1,6 +1,7 @@
 (* C06 — exception entry and RTE save and restore the interrupted context exactly. *)
 From Coq Require Import Bool ZArith List.
 From K Require Import Lib.Types Model.Machine Model.Bus Model.Cost Model.Addressing Model.Alu Model.Exec Spec.MemMap Spec.ISA Proofs.RegProofs Proofs.StackProofs Proofs.MemProofs Proofs.CtlProofs.
+From K Require Import Proofs.StepProofs Proofs.StepRefines Proofs.StepRefinesCtl.
 Open Scope Z_scope.
 
 (* On the reference (enter_ref = TRAPA / interrupt acceptance through vector v, sem_ref IRte = RTE): entry
@@ -43,6 +44,35 @@ Theorem rte_refines :
                 (i <- cs KI 2 ;; k <- csa KK 2 (reg32 s 7 mod A24) ;; n <- cs KN 2 ;; ret (u8add (u8add i k) n)).
 Proof. exact rte_refines_proof. Qed.
 
+(* ---- from the instruction word in memory to the reference semantics, in one statement ----
+   s is ANY machine state with an even PC whose instruction word w can be fetched, w1..w4 whatever follows it; if the
+   operation-code map decodes w as the two-byte instruction i and the reference semantics sem_ref gives s', then one
+   step of the model (fetch, dispatch, handler) ends in s' (plus the bookkeeping field operating_pc) with the charge
+   computed by the handler's charge expression on that final state. *)
+Theorem step_rte :
+  forall s w w1 w2 w3 w4 n s',
+    bus_bytes_ok s -> fault s = false -> pc s mod 2 = 0 -> 0 <= pc s -> pc s + 2 < 4294967296 ->
+    mem_read SW s (pc s) = Some w ->
+    decode_ref w w1 w2 w3 w4 = Some (IRte, 2) ->
+    sem_ref IRte 2 s = Some s' ->
+    (i <- cs KI 2 ;; k <- csa KK 2 (reg32 s 7 mod A24) ;; n <- cs KN 2 ;; ret (u8add (u8add i k) n)) (set_opc (pc s) s') = Ok n (set_opc (pc s) s') ->
+    step s = Ok n (set_opc (pc s) s').
+Proof. exact step_rte_proof. Qed.
+
+Theorem step_trapa :
+  forall s w w1 w2 w3 w4 k n s',
+    cpu_ok s -> fault s = false -> bus_bytes_ok s -> pc s mod 2 = 0 -> 0 <= pc s -> pc s + 2 < 16777216 ->
+    mem_read SW s (pc s) = Some w ->
+    decode_ref w w1 w2 w3 w4 = Some (ITrapa k, 2) ->
+    (forall s1, push32 (post_fetch s) (ccr s * A24 + (pc s + 2)) = Some s1 -> bus_bytes_ok s1) ->
+    sem_ref (ITrapa k) 2 s = Some s' ->
+    (i <- cs KI 2 ;; j <- csa KJ 2 (0x20 + 4 * k) ;; kk <- csa KK 2 ((reg32 s 7 - 4) mod A24) ;; n <- cs KN 4 ;;
+     ret (u8add (u8add (u8add i j) kk) n)) (set_opc (pc s) s') = Ok n (set_opc (pc s) s') ->
+    step s = Ok n (set_opc (pc s) s').
+Proof. exact step_trapa_proof. Qed.
+
 Print Assumptions entry_rte_inverse.
 Print Assumptions trapa_refines.
 Print Assumptions rte_refines.
+Print Assumptions step_rte.
+Print Assumptions step_trapa.
